@@ -89,6 +89,11 @@ def run(tier, corrupt=False):
             per = 6 if tier == "quick" else 30
             vcases = [{"p": idx[p["name"]], "obj": gen.obj(p["code"], p["name"]), "san0": False} for p in accepted if p["name"] not in ambiguous
                       for _ in range(per if p.get("gen") else 3 * per)]
+            for p in accepted:
+                if p["name"] not in ambiguous and '"tag": "length"' in json.dumps(p["code"]):
+                    gen.boundary = True        # as many items as each byte/char length field can carry
+                    vcases.append({"p": idx[p["name"]], "obj": gen.obj(p["code"], p["name"]), "san0": False})
+                    gen.boundary = False
             model = tlc_given(tmp, progs, types, vcases, "givenrt", withsize=False)
             sel = [(c, m) for c, m in zip(vcases, model) if m["kind"] == "de" and m["rt_ok"]]
             imp2, vres = run_drivers_parallel(src, wt, accepted, types, [{"kind": "rt", "prog": progs[c["p"] - 1]["name"], "obj": c["obj"], "salt": 0} for c, _ in sel])
